@@ -3,11 +3,15 @@ C13 — fit statistics are consistent with each other and with the reported data
 Property theorems about `Glotaran.C13` (lean/GlotaranModel/C13.lean), which is built on the C02 model of
 the objective (`objective`, `groupPenaltyParts`, `unlinkedProblems`, `linkedProblems`), the C03 model of the
 result datasets (`groupResults`) and the C11 model of the standard-error loop (`seValue`).
-Helper lemmas: GlotaranProofs/Lemmas/C13.lean (sums, labels), GlotaranProofs/Lemmas/C13Cov.lean (matrices).
+Helper lemmas: GlotaranProofs/Lemmas/C13.lean (sums, labels), C13Linked.lean (linked groups, legacy layout), C13Own.lean
+(alignment tables via C09, own-order layout of the repaired code, full-model shapes), C13Cov.lean (matrices).
+Result datasets are `C03.resultsOwn` / `C03.groupResultsOwn` — the layout of the code after fix D27, the one the
+drivers of C03 and C13 execute.
 -/
 import GlotaranProofs.Lemmas.C13
 import GlotaranProofs.Lemmas.C13Cov
 import GlotaranProofs.Lemmas.C13Linked
+import GlotaranProofs.Lemmas.C13Own
 import GlotaranProofs.Lemmas.C11
 import Mathlib.Analysis.Real.Sqrt
 namespace Glotaran.C13
@@ -31,10 +35,11 @@ theorem residual_count (mi : ModelItems) (gs : List Group) (k : Nat) (st : Stats
   | nil => rfl
   | cons p ps ih => simp only [List.map_cons, List.sum_cons, Function.comp, List.length_append, ih]; omega
 
-/-- **every data point counts once**: unlinked groups of shape-consistent datasets without global model —
+/-- **every data point counts once**: unlinked groups of shape-consistent datasets — with or without a global model
+    (`GlobalOK`: every global megacomplex matrix is 2-D with a row per global index) —
     `number_of_residuals` = Σ_datasets |model axis| · |global axis| + number of penalties. -/
 theorem residual_count_unlinked (mi : ModelItems) (gs : List Group) (k : Nat) (st : Stats)
-    (hl : ∀ g ∈ gs, g.linked = false) (hg : ∀ g ∈ gs, ∀ d ∈ g.datasets, d.gmcs = [])
+    (hl : ∀ g ∈ gs, g.linked = false) (hg : ∀ g ∈ gs, ∀ d ∈ g.datasets, GlobalOK d)
     (hwf : ∀ g ∈ gs, ∀ d ∈ g.datasets, d.WF)
     (h : createStats mi gs k = some st) :
     ∃ pens, additionalPenalty mi gs = some pens ∧
@@ -46,7 +51,8 @@ theorem residual_count_unlinked (mi : ModelItems) (gs : List Group) (k : Nat) (s
   congr 1
   have := Length.mapM_option_map_eq (groupPenaltyParts mi) (fun p : Vec × Vec => p.1.length)
     (fun g : Group => (g.datasets.map (fun d => d.nModel * d.nGlobal)).sum) gs parts hparts
-    (fun g hgm p hp => group_penalty_length_unlinked_lem mi g p.1 p.2 (hl g hgm) (hg g hgm) (hwf g hgm) hp)
+    (fun g hgm p hp => unlinkedGroup_length_all mi g p.1 p.2 (hl g hgm) (fun d hd => (hwf g hgm d hd).weak)
+      (hg g hgm) hp)
   rw [this]
 
 example : (∀ d ∈ Length.exampleGroup.datasets, d.WF) ∧
@@ -73,43 +79,96 @@ theorem chi_square_decomposes (mi : ModelItems) (gs : List Group) (k : Nat) (st 
   intro p _
   simp [sumOfSquares_append]
 
+/-- **full model: the shape condition on the global matrix, proved for `datasetMatrix d.gmcs`** — if every global
+    megacomplex matrix is index independent with (at least) a row per point of the global axis (`GlobalOK`), so is their
+    combination … -/
+theorem global_matrix_shape (d : Dataset) (gm : LMat) (hG : GlobalOK d) (h : datasetMatrix d.gmcs = some gm) :
+    ∃ G, gm.body = .d2 G ∧ d.nGlobal ≤ G.length :=
+  globalMatrix_shape d gm hG h
+
+/-- … and then **the full matrix has a row per data point**: the flattened data has `|model axis| · |global axis|`
+    entries and the (weighted) Kronecker matrix at least as many rows, so the solver's residual keeps every data point. -/
+theorem full_matrix_has_row_per_data_point (d : Dataset) (a : Mat) (y : Vec) (hwf : d.WF) (hG : GlobalOK d)
+    (h : fullModelProblem d = some (a, y)) : y.length = d.nModel * d.nGlobal ∧ y.length ≤ a.length :=
+  fullModelProblem_rows d a y hwf.weak hG h
+
+/-- 2 × 3 weighted data, one compartment, two global compartments -/
+private def exFull : Group :=
+  { linked := false, solver := .vp, tol := 0, method := .nearest,
+    datasets := [
+      { label := "f", globalAxis := [0, 1, 2], data := [[1, 2, 3], [4, 5, 7]], weight := some [[1, 1, 2], [1, 3, 1]],
+        scale := none, mcs := [⟨⟨["s1"], .d2 [[1], [3]]⟩, none⟩],
+        gmcs := [⟨⟨["g1", "g2"], .d2 [[1, 0], [1, 1], [2, 5]]⟩, none⟩] }] }
+
+private theorem exFull_ok : (∀ d ∈ exFull.datasets, d.WF) ∧ (∀ d ∈ exFull.datasets, GlobalOK d) := by
+  constructor
+  · intro d hd
+    simp only [exFull, List.mem_cons, List.not_mem_nil, or_false] at hd
+    subst hd
+    refine ⟨(by intro w hw; cases hw; rfl), ?_⟩
+    intro o ho
+    simp only [List.mem_cons, List.not_mem_nil, or_false] at ho
+    subst ho; rfl
+  · intro d hd
+    simp only [exFull, List.mem_cons, List.not_mem_nil, or_false] at hd
+    subst hd
+    intro o ho
+    simp only [List.mem_cons, List.not_mem_nil, or_false] at ho
+    subst ho
+    show (3 : Nat) ≤ 3
+    decide
+
+/-- the hypotheses hold on `exFull`; its full matrix is 6 × 2 for 6 data points -/
+example : (∀ d ∈ exFull.datasets, d.WF) ∧ (∀ d ∈ exFull.datasets, GlobalOK d) ∧
+    (exFull.datasets.map (fun d => (fullModelProblem d).map (fun ay => (ay.1.length, ay.2.length)))) = [some (6, 6)] :=
+  ⟨exFull_ok.1, exFull_ok.2, by decide +kernel⟩
+
 /-- **the residual part of an unlinked group is the weighted residuals of its result datasets**: for an
-    unlinked group of shape-consistent datasets — without global model, or with one whose full matrix has a row per
-    data point — Σ residual part² = Σ_datasets Σ weighted_residual² (`weighted_residual` if the dataset has one,
-    else `residual`): the result matrix is the residual block laid out as columns. -/
+    unlinked group of shape-consistent datasets — without global model, or with one whose global megacomplex matrices
+    are 2-D with a row per global index (`GlobalOK`) — Σ residual part² = Σ_datasets Σ weighted_residual²
+    (`weighted_residual` if the dataset has one, else `residual`): the result matrix is the residual block laid out as
+    columns. -/
 theorem chi_square_decomposes_datasets_unlinked (mi : ModelItems) (g : Group) (res pens : Vec)
     (rs : List C03.DsResult)
-    (hl : g.linked = false) (hwf : ∀ d ∈ g.datasets, d.WF)
-    (hfull : ∀ d ∈ g.datasets, d.gmcs ≠ [] → ∀ a y, fullModelProblem d = some (a, y) → y.length ≤ a.length)
-    (h1 : groupPenaltyParts mi g = some (res, pens)) (h2 : C03.groupResults mi g = some rs) :
-    sumOfSquares res = (rs.map (fun r => matSumSq (weightedResidual r))).sum :=
-  unlinkedGroup_sumsq_all mi g res pens rs hl (fun d hd => (hwf d hd).weak) hfull h1 h2
+    (hl : g.linked = false) (hwf : ∀ d ∈ g.datasets, d.WF) (hG : ∀ d ∈ g.datasets, GlobalOK d)
+    (h1 : groupPenaltyParts mi g = some (res, pens)) (h2 : C03.groupResultsOwn mi g = some rs) :
+    sumOfSquares res = (rs.map (fun r => matSumSq (weightedResidual r))).sum := by
+  have h2' : C03.groupResults mi g = some rs := by
+    unfold C03.groupResultsOwn at h2
+    unfold C03.groupResults
+    simpa [hl] using h2
+  exact unlinkedGroup_sumsq_global mi g res pens rs hl (fun d hd => (hwf d hd).weak) hG h1 h2'
 
-/-- **the same for a linked group**: the stacked residual of every aligned value is cut into the member datasets'
-    blocks without loss or overlap (dataset labels pairwise different, shape-consistent datasets), so
-    Σ residual part² = Σ_datasets Σ weighted_residual². -/
+example : (groupPenaltyParts {} exFull).isSome = true ∧
+    (groupPenaltyParts {} exFull).map (fun p => sumOfSquares p.1) =
+      (C03.groupResultsOwn {} exFull).map (fun rs => (rs.map (fun r => matSumSq (weightedResidual r))).sum) := by
+  refine ⟨by decide +kernel, by decide +kernel⟩
+
+/-- **the same for a linked group, for the result datasets the repaired code reports** (`C03.groupResultsOwn`: every
+    dataset on its own global index order, fix D27): the stacked residual of every aligned value is cut into the member
+    datasets' blocks without loss or overlap and every dataset collects exactly the blocks of its own global indices
+    (dataset labels pairwise different, shape-consistent datasets, the first dataset's global axis without repeated
+    value — later datasets: the alignment refuses), so Σ residual part² = Σ_datasets Σ weighted_residual². -/
 theorem chi_square_decomposes_datasets_linked (mi : ModelItems) (g : Group) (res pens : Vec)
     (rs : List C03.DsResult)
     (hl : g.linked = true) (hwf : ∀ d ∈ g.datasets, d.WF) (hlab : (g.datasets.map (·.label)).Nodup)
-    (h1 : groupPenaltyParts mi g = some (res, pens)) (h2 : C03.groupResults mi g = some rs) :
+    (h0 : ∀ d, g.datasets.head? = some d → d.globalAxis.Nodup)
+    (h1 : groupPenaltyParts mi g = some (res, pens)) (h2 : C03.groupResultsOwn mi g = some rs) :
     sumOfSquares res = (rs.map (fun r => matSumSq (weightedResidual r))).sum :=
-  linkedGroup_sumsq_wf mi g res pens rs hl (fun d hd => (hwf d hd).weak) hlab h1 h2
+  linkedGroup_sumsq_own mi g res pens rs hl (fun d hd => (hwf d hd).weak) hlab h0 h1 h2
 
-/-- two linked datasets (2 × 2 unweighted on [0, 1]; 3 × 2 weighted and scaled on [1, 2]) sharing one aligned value -/
+/-- two linked datasets (2 × 2 unweighted on the *descending* axis [1, 0]; 3 × 2 weighted and scaled on [1, 2]) sharing
+    the aligned value 1: the own-order layout differs from the aligned-axis-order one -/
 private def exLinked : Group :=
   { linked := true, solver := .vp, tol := 0, method := .nearest,
     datasets := [
-      { label := "a", globalAxis := [0, 1], data := [[1, 2], [2, 3]], weight := none, scale := none,
+      { label := "a", globalAxis := [1, 0], data := [[1, 2], [2, 3]], weight := none, scale := none,
         mcs := [⟨⟨["c"], .d2 [[1], [1]]⟩, none⟩], gmcs := [] },
       { label := "b", globalAxis := [1, 2], data := [[4, 1], [6, 1], [9, 2]],
         weight := some [[1, 2], [1, 1], [2, 1]], scale := some 2,
         mcs := [⟨⟨["c", "e"], .d2 [[1, 0], [1, 1], [1, 2]]⟩, none⟩], gmcs := [] }] }
 
-example : (∀ d ∈ exLinked.datasets, d.WF) ∧ (exLinked.datasets.map (·.label)).Nodup ∧
-    (groupPenaltyParts {} exLinked).isSome = true ∧ (C03.groupResults {} exLinked).isSome = true ∧
-    (groupPenaltyParts {} exLinked).map (fun p => sumOfSquares p.1) =
-      (C03.groupResults {} exLinked).map (fun rs => (rs.map (fun r => matSumSq (weightedResidual r))).sum) := by
-  refine ⟨?_, by decide, by decide +kernel, by decide +kernel, by decide +kernel⟩
+private theorem exLinked_wf : ∀ d ∈ exLinked.datasets, d.WF := by
   intro d hd
   simp only [exLinked, List.mem_cons, List.not_mem_nil, or_false] at hd
   rcases hd with rfl | rfl
@@ -122,9 +181,36 @@ example : (∀ d ∈ exLinked.datasets, d.WF) ∧ (exLinked.datasets.map (·.lab
     simp only [List.mem_cons, List.not_mem_nil, or_false] at ho
     subst ho; rfl
 
-/-- **number of residual entries of a linked group**: every dataset contributes its model axis once for every
+private theorem exLinked_head : ∀ d, exLinked.datasets.head? = some d → d.globalAxis.Nodup := by
+  intro d hd
+  simp only [exLinked, List.head?_cons, Option.some.injEq] at hd
+  subst hd
+  decide +kernel
+
+example : (∀ d ∈ exLinked.datasets, d.WF) ∧ (exLinked.datasets.map (·.label)).Nodup ∧
+    (∀ d, exLinked.datasets.head? = some d → d.globalAxis.Nodup) ∧
+    (groupPenaltyParts {} exLinked).isSome = true ∧ (C03.groupResultsOwn {} exLinked).isSome = true ∧
+    (C03.groupResultsOwn {} exLinked).map (List.map (·.residual)) ≠ (C03.groupResults {} exLinked).map (List.map (·.residual)) ∧
+    (groupPenaltyParts {} exLinked).map (fun p => sumOfSquares p.1) =
+      (C03.groupResultsOwn {} exLinked).map (fun rs => (rs.map (fun r => matSumSq (weightedResidual r))).sum) :=
+  ⟨exLinked_wf, by decide, exLinked_head, by decide +kernel, by decide +kernel, by decide +kernel, by decide +kernel⟩
+
+/-- **number of residual entries of a linked group = number of data points**: every global index of every dataset
+    belongs to exactly one aligned value (C09: `c02_every_column_once`, here through `TablesOK`), so every dataset
+    contributes its model axis once per global index.  (Shape-consistent datasets; the first dataset's global axis
+    without repeated value.) -/
+theorem residual_count_linked (mi : ModelItems) (g : Group) (res pens : Vec)
+    (hl : g.linked = true) (hwf : ∀ d ∈ g.datasets, d.WF)
+    (h0 : ∀ d, g.datasets.head? = some d → d.globalAxis.Nodup)
+    (h1 : groupPenaltyParts mi g = some (res, pens)) :
+    res.length = (g.datasets.map (fun d => d.nModel * d.nGlobal)).sum :=
+  linkedGroup_length_points mi g res pens hl (fun d hd => (hwf d hd).weak) h0 h1
+
+example : (groupPenaltyParts {} exLinked).map (·.1.length) = some (2 * 2 + 3 * 2) := by decide +kernel
+
+/-- the general form, without the hypothesis on the first axis: every dataset contributes its model axis once for every
     aligned value it is a member of (`aligned` = the datasets' axes after alignment, `axis` = their sorted union) -/
-theorem residual_count_linked (mi : ModelItems) (g : Group) (res pens : Vec) (aligned : List (List Rat))
+theorem residual_count_linked_members (mi : ModelItems) (g : Group) (res pens : Vec) (aligned : List (List Rat))
     (axis : List Rat) (ps : List IndexProblem)
     (hl : g.linked = true) (hwf : ∀ d ∈ g.datasets, d.WF)
     (hal : alignAxes (g.datasets.map (·.globalAxis)) g.tol g.method = some aligned)
@@ -134,10 +220,40 @@ theorem residual_count_linked (mi : ModelItems) (g : Group) (res pens : Vec) (al
       (fun dk => dk.1.nModel * (axis.filter (fun v => dk.2.contains v)).length)).sum :=
   linkedGroup_length mi g res pens aligned axis ps hl (fun d hd => (hwf d hd).weak) hal hlp h1
 
+/-- **the hypothesis on the first dataset's axis is necessary** (for `residual_count_linked` and
+    `chi_square_decomposes_datasets_linked`): a first dataset whose global axis repeats a value (2 × 2 on [1, 1]) — the
+    alignment does not refuse it, only the first of the two columns is stacked: 2 residual entries for 4 data points, and
+    the result dataset repeats that column.  (The real code does not get this far: it raises while building the linked
+    data provider — a repeated coordinate cannot be indexed / aligned; replayed by the harness on every run.) -/
+theorem residual_count_linked_counterexample :
+    let g : Group :=
+      { linked := true, solver := .vp, tol := 0, method := .nearest,
+        datasets := [
+          { label := "a", globalAxis := [1, 1], data := [[1, 2], [2, 4]], weight := none, scale := none,
+            mcs := [⟨⟨["c"], .d2 [[1], [1]]⟩, none⟩], gmcs := [] }] }
+    (∀ d ∈ g.datasets, d.WF) ∧ ¬ (∀ d, g.datasets.head? = some d → d.globalAxis.Nodup) ∧
+    (groupPenaltyParts {} g).map (·.1.length) = some 2 ∧
+    (g.datasets.map (fun d => d.nModel * d.nGlobal)).sum = 4 ∧
+    (groupPenaltyParts {} g).map (fun p => sumOfSquares p.1) = some (1 / 2) ∧
+    (C03.groupResultsOwn {} g).map (fun rs => (rs.map (fun r => matSumSq (weightedResidual r))).sum) = some 1 := by
+  intro g
+  refine ⟨?_, ?_, by decide +kernel, by decide +kernel, by decide +kernel, by decide +kernel⟩
+  · intro d hd
+    simp only [g, List.mem_cons, List.not_mem_nil, or_false] at hd
+    subst hd
+    refine ⟨(by intro w hw; cases hw), ?_⟩
+    intro o ho
+    simp only [List.mem_cons, List.not_mem_nil, or_false] at ho
+    subst ho; rfl
+  · intro h
+    have := h _ rfl
+    revert this
+    decide +kernel
+
 /-- a 2 × 2 weighted dataset: χ² of the residual part and of the result dataset agree -/
 example :
     (groupPenaltyParts {} Length.exampleGroup).map (fun p => sumOfSquares p.1) =
-      (C03.groupResults {} Length.exampleGroup).map (fun rs => (rs.map (fun r => matSumSq (weightedResidual r))).sum) := by
+      (C03.groupResultsOwn {} Length.exampleGroup).map (fun rs => (rs.map (fun r => matSumSq (weightedResidual r))).sum) := by
   decide +kernel
 
 /-- **cost = χ² / 2**: `0.5 · np.dot(f, f)` and `np.sum(f**2) / 2` are the same number -/
@@ -154,6 +270,121 @@ theorem stats_from_objective (mi : ModelItems) (gs : List Group) (k : Nat) (st :
   exact ⟨f, hf, rfl, rfl, rfl, cost_eq_half_chi f k c, sumOfSquares_nonneg f⟩
 
 example : (stats [3, 4] 1 0).chiSquare = 25 ∧ (stats [3, 4] 1 0).cost = 25 / 2 := by decide +kernel
+
+/-! ### 2b. all groups together: the statement of the property -/
+
+/-- what the two theorems below assume of a group: shape-consistent datasets; unlinked: global megacomplex matrices 2-D
+    with a row per global index; linked: pairwise different dataset labels, first global axis without repeated value -/
+structure GroupOK (g : Group) : Prop where
+  wf : ∀ d ∈ g.datasets, d.WF
+  glob : g.linked = false → ∀ d ∈ g.datasets, GlobalOK d
+  labels : g.linked = true → (g.datasets.map (·.label)).Nodup
+  axis : g.linked = true → ∀ d, g.datasets.head? = some d → d.globalAxis.Nodup
+
+/-- **`number_of_residuals` counts every data point once plus one entry per penalty** — any mixture of linked and
+    unlinked groups, datasets with and without a global model -/
+theorem residual_count_every_point (mi : ModelItems) (gs : List Group) (k : Nat) (st : Stats)
+    (hok : ∀ g ∈ gs, GroupOK g) (h : createStats mi gs k = some st) :
+    ∃ pens, additionalPenalty mi gs = some pens ∧
+      st.nResiduals = (gs.map (fun g => (g.datasets.map (fun d => d.nModel * d.nGlobal)).sum)).sum
+        + (pens.map List.length).sum := by
+  obtain ⟨parts, hparts, hadd, hn⟩ := residual_count mi gs k st h
+  refine ⟨parts.map (·.2), hadd, ?_⟩
+  rw [hn, List.map_map]
+  congr 1
+  have hlen : ∀ g ∈ gs, ∀ p : Vec × Vec, groupPenaltyParts mi g = some p →
+      p.1.length = (g.datasets.map (fun d => d.nModel * d.nGlobal)).sum := by
+    intro g hgm p hp
+    cases hl : g.linked with
+    | true => exact residual_count_linked mi g p.1 p.2 hl (hok g hgm).wf ((hok g hgm).axis hl) hp
+    | false =>
+      have hw : ∀ d ∈ g.datasets, d.WFWeak := fun d hd => ((hok g hgm).wf d hd).weak
+      exact unlinkedGroup_length_all mi g p.1 p.2 hl hw ((hok g hgm).glob hl) hp
+  have := Length.mapM_option_map_eq (groupPenaltyParts mi) (fun p : Vec × Vec => p.1.length)
+    (fun g : Group => (g.datasets.map (fun d => d.nModel * d.nGlobal)).sum) gs parts hparts hlen
+  rw [this]
+
+/-- **χ² = Σ over all result datasets Σ weighted_residual² + Σ penalties²**, the result datasets being those of
+    `C03.resultsOwn` (what the repaired code reports) and the penalties those of `additional_penalty` -/
+theorem chi_square_over_result_datasets (mi : ModelItems) (gs : List Group) (k : Nat) (st : Stats)
+    (rs : List C03.DsResult) (hok : ∀ g ∈ gs, GroupOK g)
+    (h : createStats mi gs k = some st) (hr : C03.resultsOwn mi gs = some rs) :
+    ∃ pens, additionalPenalty mi gs = some pens ∧
+      st.chiSquare = (rs.map (fun r => matSumSq (weightedResidual r))).sum + (pens.map sumOfSquares).sum ∧
+      st.cost = st.chiSquare / 2 := by
+  -- group by group
+  have key : ∀ (gs : List Group) (parts : List (Vec × Vec)) (rss : List (List C03.DsResult)),
+      (∀ g ∈ gs, GroupOK g) → gs.mapM (groupPenaltyParts mi) = some parts →
+      gs.mapM (C03.groupResultsOwn mi) = some rss →
+      (parts.map (fun p => sumOfSquares p.1)).sum =
+        (rss.map (fun rs => (rs.map (fun r => matSumSq (weightedResidual r))).sum)).sum := by
+    intro gs
+    induction gs with
+    | nil =>
+      intro parts rss _ hparts hrss
+      simp only [List.mapM_nil] at hparts hrss
+      cases hparts; cases hrss; rfl
+    | cons g gs ih =>
+      intro parts rss hok hparts hrss
+      rw [List.mapM_cons] at hparts hrss
+      cases hp : groupPenaltyParts mi g with
+      | none => simp [hp] at hparts
+      | some p =>
+        cases hq : C03.groupResultsOwn mi g with
+        | none => simp [hq] at hrss
+        | some r =>
+          cases hps : gs.mapM (groupPenaltyParts mi) with
+          | none => simp [hp, hps] at hparts
+          | some parts' =>
+            cases hrs : gs.mapM (C03.groupResultsOwn mi) with
+            | none => simp [hq, hrs] at hrss
+            | some rss' =>
+              simp [hp, hps] at hparts
+              simp [hq, hrs] at hrss
+              subst hparts hrss
+              have hg := hok g List.mem_cons_self
+              have h1 : sumOfSquares p.1 = (r.map (fun r => matSumSq (weightedResidual r))).sum := by
+                cases hl : g.linked with
+                | true =>
+                  exact chi_square_decomposes_datasets_linked mi g p.1 p.2 r hl hg.wf (hg.labels hl) (hg.axis hl) hp hq
+                | false =>
+                  exact chi_square_decomposes_datasets_unlinked mi g p.1 p.2 r hl hg.wf (hg.glob hl) hp hq
+              simp only [List.map_cons, List.sum_cons]
+              rw [h1, ih parts' rss' (fun g' hg' => hok g' (List.mem_cons_of_mem _ hg')) hps hrs]
+  obtain ⟨parts, hparts, hadd, hchi⟩ := chi_square_decomposes mi gs k st h
+  obtain ⟨f, _, _, _, _, hcost, _⟩ := stats_from_objective mi gs k st h
+  refine ⟨parts.map (·.2), hadd, ?_, hcost⟩
+  rw [hchi, List.map_map]
+  congr 1
+  unfold C03.resultsOwn at hr
+  obtain ⟨rss, hrss, rfl⟩ := Option.map_eq_some_iff.mp hr
+  rw [List.map_flatten, List.sum_flatten, List.map_map]
+  exact key gs parts rss hok hparts hrss
+
+private theorem exLinked_ok : GroupOK exLinked :=
+  ⟨exLinked_wf, fun h => absurd h (by decide), fun _ => by decide, fun _ => exLinked_head⟩
+
+private theorem exFull_groupOK : GroupOK exFull :=
+  ⟨exFull_ok.1, fun _ => exFull_ok.2, fun h => absurd h (by decide), fun h => absurd h (by decide)⟩
+
+/-- an equal-area penalty between the compartments `c` and `e` on [0, 2] -/
+private def exMi : ModelItems := { penalties := [⟨"c", [⟨.fin 0, .fin 2⟩], "e", [⟨.fin 0, .fin 2⟩], 1, 2⟩] }
+
+/-- a linked group (descending first axis) and a group with a full model, one penalty: 10 + 6 data points + 1 penalty;
+    χ² = the three result datasets' Σ weighted_residual² + the squared penalty -/
+example : (∀ g ∈ [exLinked, exFull], GroupOK g) ∧
+    (createStats exMi [exLinked, exFull] 1).map (·.nResiduals) = some (10 + 6 + 1) ∧
+    additionalPenalty exMi [exLinked, exFull] = some [[7936 / 1239], []] ∧
+    (C03.resultsOwn exMi [exLinked, exFull]).map (fun rs => rs.map (fun r => matSumSq (weightedResidual r))) =
+      some [4059 / 3481, 32761 / 73101, 1837 / 427] ∧
+    (createStats exMi [exLinked, exFull] 1).map (·.chiSquare) =
+      some (4059 / 3481 + 32761 / 73101 + 1837 / 427 + 7936 / 1239 * (7936 / 1239)) := by
+  refine ⟨?_, by decide +kernel, by decide +kernel, by decide +kernel, by decide +kernel⟩
+  intro g hg
+  simp only [List.mem_cons, List.not_mem_nil, or_false] at hg
+  rcases hg with rfl | rfl
+  · exact exLinked_ok
+  · exact exFull_groupOK
 
 /-! ### 3. degrees of freedom, reduced χ², RMSE -/
 
@@ -211,6 +442,72 @@ theorem nclp_counts_reduced (mi : ModelItems) (g : Group) (axis : List Rat) (ps 
   apply List.map_congr_left
   intro p hp
   rw [hlab p hp (hN p hp)]
+
+/-- **linked group, any tolerance and method — the count in terms of the inputs alone**: `number_of_clps` = Σ over the
+    aligned axis (`alignedAxisOf aligned`, the sorted union of the aligned axes) of the number of labels that remain
+    **at the aligned value `v`** — not at the datasets' own coordinates that were merged into `v` — of
+    `memberLabelsAt … v`, the union (first-occurrence order) of the clp labels of the datasets that have a global index
+    aligned to `v`.  Which own coordinate is aligned to which value is C09's subject (`c02_alignIndex_spec`). -/
+theorem nclp_linked_at_aligned_values (mi : ModelItems) (g : Group) (aligned : List (List Rat)) (k : Nat)
+    (hl : g.linked = true) (hwf : ∀ d ∈ g.datasets, d.WF)
+    (hm : ∀ d ∈ g.datasets, ∀ o ∈ d.mcs, o.out.labels.Nodup)
+    (hal : alignAxes (g.datasets.map (·.globalAxis)) g.tol g.method = some aligned)
+    (h : groupClps mi g = some k) :
+    k = ((alignedAxisOf aligned).map (fun v => (remaining mi v (memberLabelsAt g.datasets aligned v)).length)).sum := by
+  cases hlp : linkedProblems mi g with
+  | none => simp [groupClps, hl, hlp] at h
+  | some ap =>
+    obtain ⟨axis, ps⟩ := ap
+    obtain ⟨hx, hk⟩ := nclp_counts_reduced mi g axis ps hl hlp hm
+    rw [h] at hk
+    have hax := linkedProblems_axis mi g aligned axis ps hal hlp
+    have hu := linkedProblems_fullLabels_union mi g aligned axis ps (fun d hd => (hwf d hd).weak) hal hlp
+    rw [Option.some.inj hk]
+    have : alignedAxisOf aligned = ps.map (·.x) := by rw [hx, hax]; rfl
+    rw [this, List.map_map]
+    congr 1
+    apply List.map_congr_left
+    intro p hp
+    simp only [Function.comp, hu p hp]
+
+/-- tolerance 1/5, axes (1, 2, 3) and (2.1, 2.9, 4): 2.1 ↦ 2, 2.9 ↦ 3.  `s2` is zero on [1.95, 2.95]: at the aligned
+    value 2 it is removed; at the aligned value 3 it stays although the own coordinate 2.9 of the second dataset lies
+    inside the interval -/
+private def exTol : Group :=
+  { linked := true, solver := .vp, tol := 1/5, method := .nearest,
+    datasets := [
+      { label := "a", globalAxis := [1, 2, 3], data := [[1, 2, 0], [2, 3, 1]], weight := none, scale := none,
+        mcs := [⟨⟨["s1", "s2"], .d2 [[1, 0], [1, 1]]⟩, none⟩], gmcs := [] },
+      { label := "b", globalAxis := [21/10, 29/10, 4], data := [[4, 1, 2], [6, 1, 0], [9, 2, 1]],
+        weight := none, scale := none,
+        mcs := [⟨⟨["s2", "s3"], .d2 [[1, 0], [1, 1], [1, 2]]⟩, none⟩], gmcs := [] }] }
+
+private def exTolMi : ModelItems := { constraints := [⟨false, "s2", some [⟨.fin (39/20), .fin (59/20)⟩]⟩] }
+
+example : alignAxes (exTol.datasets.map (·.globalAxis)) exTol.tol exTol.method = some [[1, 2, 3], [2, 3, 4]] ∧
+    (∀ d ∈ exTol.datasets, d.WF) ∧ (∀ d ∈ exTol.datasets, ∀ o ∈ d.mcs, o.out.labels.Nodup) ∧
+    groupClps exTolMi exTol = some 9 ∧
+    (alignedAxisOf [[1, 2, 3], [2, 3, 4]]).map (fun v => remaining exTolMi v (memberLabelsAt exTol.datasets [[1, 2, 3], [2, 3, 4]] v)) =
+      [["s1", "s2"], ["s1", "s3"], ["s1", "s2", "s3"], ["s2", "s3"]] := by
+  refine ⟨by decide +kernel, ?_, ?_, by decide +kernel, by decide +kernel⟩
+  · intro d hd
+    simp only [exTol, List.mem_cons, List.not_mem_nil, or_false] at hd
+    rcases hd with rfl | rfl
+    · refine ⟨(by intro w hw; cases hw), ?_⟩
+      intro o ho
+      simp only [List.mem_cons, List.not_mem_nil, or_false] at ho
+      subst ho; rfl
+    · refine ⟨(by intro w hw; cases hw), ?_⟩
+      intro o ho
+      simp only [List.mem_cons, List.not_mem_nil, or_false] at ho
+      subst ho; rfl
+  · intro d hd o ho
+    simp only [exTol, List.mem_cons, List.not_mem_nil, or_false] at hd
+    rcases hd with rfl | rfl
+    · simp only [List.mem_cons, List.not_mem_nil, or_false] at ho
+      subst ho; decide
+    · simp only [List.mem_cons, List.not_mem_nil, or_false] at ho
+      subst ho; decide
 
 /-- **unlinked dataset without global model**: its term of `number_of_clps` = Σ over its global axis of the number
     of labels of its (combined) matrix that remain at that axis value. -/
